@@ -28,6 +28,9 @@ FACTS = {
  "zone-lt": ("sub-agent wave 3 (minimal bias)", "types wider than 16 bits, gen_range / sample_single path, an odd range size: exactly one RNG word out of 2^BITS is wrongly rejected, so one value (at a pseudo-random position) has 2^lz - 1 accepted words instead of 2^lz", "span probe / fibre walk (block sizes differ by one), 24-bit sweeps"),
  "pow2mod-shift": ("sub-agent wave 3 (minimal bias)", "a Uniform object on a type of at least 64 bits with 2^63 < range size < 2^64: 2^BITS mod r is computed as 0, sample never rejects, `low` and z-1 other values get one extra accepted word", "preimage_bound (R3) on 64-bit types (q = 1); span probe at offset 0 on wider types"),
  "wmul-comba": ("sub-agent wave 3 (minimal bias)", "widening_mul rewritten on 64-bit limbs loses a carry when a middle accumulator word is exactly u64::MAX: types wider than 96 bits, range size >= 2^64, a 2^-64 coincidence per product step for random words", "preimage_bound (R3) at 512..8192 bits via extreme words made of whole 00 / FF digits"),
+ "divlu-rhat": ("sub-agent wave 3 (evasion)", "u64 digits with N >= 2, a Uniform constructor, and a range size for which a 128-by-64-bit quotient-digit estimate hits an exact 2^32 remainder (about 2^-33 for unstructured sizes; ~0.5% of sizes 2^k +- 2^j, ~1% of sizes made of all-ones digits): ints_to_reject is wrong, fibres differ by one word out of ~2^64 or more", "span probe (fibre_spans_differ) on multi-digit u64 types with run-of-ones / digit-pattern range sizes; about 3 expected detections per quick run, certain in the thorough tier"),
+ "comba-spill": ("sub-agent wave 3 (evasion)", "u8 digits with N >= 258 (wider than 2056 bits) and dense operands (all-ones word x near-full-width range): the carry counter of the product-scanning widening_mul overflows", "panic (R2) in the dbg build and membership / preimage_bound in the rel build on BUintD8<320> / BUintD8<1024> (the widest u8-digit instantiations, added to the menu because of this change)"),
+ "fill-chunks": ("sub-agent wave 3 (evasion)", "a slice whose byte length exceeds 65536 and is not a multiple of it: chunks_exact_mut leaves the tail unwritten while Ok(()) is returned", "history refinement (R4) on fills sized just above 65536 bytes"),
 }
 
 base = "/verif/seeded"
